@@ -550,6 +550,12 @@ func (fx *FX) evalCall(env *Env, c ECall) Val {
 			return VSeq{app(SSeq, "jsstring", ref)}
 		}
 		return VBool{app(SBool, "jsbool", ref)}
+	case "rangeseen": // the enclosing map-range loop has already visited key k (ghost)
+		if env.rangeSeen.S != "" {
+			return VBool{sel(env.rangeSeen, seq(0))}
+		}
+		fx.fail("contract: rangeseen outside a map-range loop over string keys")
+		return VBool{tFalse}
 	case "qhas", "qval": // abstract contents of a string->string map value (local map, url.Values)
 		if mv, ok := argv(0).(VMap); ok {
 			g := fx.mapGhost(env.st, mv.Ref)
